@@ -6,6 +6,8 @@ package main
 // with the reason why it does not take part.
 
 import (
+	"go/token"
+	"os"
 	"fmt"
 	"go/types"
 	"sort"
@@ -502,4 +504,166 @@ func ruleComparatorsPure(p *Prog, r *Report, pkgs map[string]bool, sm *summarize
 			"the comparator modifies "+strings.Join(w, ", ")+": its operands are no longer what was loaded / what later phases expect")
 	}
 	r.floor("R-EQp", "comparators examined", n, 1)
+}
+
+// ---- R-EQs: comparators treat their two operands alike
+
+// symmetrySig: what the function tests, stores and returns, with the two operands
+// labelled la / lb.
+func symmetrySig(fn *ssa.Function, pa, pb *ssa.Parameter, la, lb string) []string {
+	descParamLabel = map[*ssa.Parameter]string{pa: la, pb: lb}
+	descSwapSides = la == "B"
+	defer func() { descParamLabel = nil; descSwapSides = false }()
+	var out []string
+	// a loop over one operand says nothing when the lengths are compared as well
+	lenCompared := false
+	for _, b := range fn.Blocks {
+		if i := ifOf(b); i != nil {
+			if bo, ok := i.Cond.(*ssa.BinOp); ok && (bo.Op == token.EQL || bo.Op == token.NEQ) && isLenCall(bo.X) && isLenCall(bo.Y) {
+				lenCompared = true
+			}
+		}
+	}
+	for _, b := range fn.Blocks {
+		if i := ifOf(b); i != nil && !(isLoopCond(b) && lenCompared) {
+			// one spelling per test, whichever way it is written
+			t, f := descCond(i.Cond, true), descCond(i.Cond, false)
+			if f < t {
+				t = f
+			}
+			out = append(out, "if "+t)
+		}
+		for _, in := range b.Instrs {
+			switch x := in.(type) {
+			case *ssa.MapUpdate:
+				out = append(out, "set "+descValue(x.Map, 0)+"["+descValue(x.Key, 0)+"] = "+descValue(x.Value, 0))
+			case *ssa.Return:
+				for _, rv := range x.Results {
+					if _, isBin := rv.(*ssa.BinOp); isBin {
+						out = append(out, "return "+descCond(rv, true))
+					} else {
+						out = append(out, "return "+descValue(rv, 0))
+					}
+				}
+			case *ssa.Call:
+				if _, isB := x.Common().Value.(*ssa.Builtin); isB {
+					continue
+				}
+				if x.Referrers() == nil || len(*x.Referrers()) == 0 {
+					out = append(out, "call "+descCall(x, 0))
+				}
+			}
+		}
+	}
+	sort.Strings(out)
+	return out
+}
+
+
+type symCand struct {
+	Fn     *ssa.Function
+	A, B   *ssa.Parameter
+	Sym    bool
+	Detail string
+}
+
+// comparatorCandidates: functions with a single bool result and exactly two parameters of one
+// (non-bool, non-int) type, that write nothing outside their locals.
+func comparatorCandidates(p *Prog, pkgs map[string]bool, sm *summarizer) []symCand {
+	// two rounds: calls of predicates found symmetric in the first are order-free in the second
+	descSymCallees = nil
+	first := comparatorCandidates1(p, pkgs)
+	descSymCallees = map[*ssa.Function]bool{}
+	for _, c := range first {
+		if c.Sym {
+			descSymCallees[c.Fn] = true
+		}
+	}
+	defer func() { descSymCallees = nil }()
+	return comparatorCandidates1(p, pkgs)
+}
+
+func comparatorCandidates1(p *Prog, pkgs map[string]bool) []symCand {
+	var out []symCand
+	for _, fn := range allModFuncs(p) {
+		if !pkgs[pkgOfFunc(fn)] || fn.Synthetic != "" || len(fn.Blocks) == 0 {
+			continue
+		}
+		res := fn.Signature.Results()
+		if res.Len() != 1 {
+			continue
+		}
+		if b, ok := res.At(0).Type().Underlying().(*types.Basic); !ok || b.Kind() != types.Bool {
+			continue
+		}
+		params := fn.Params
+		if fn.Signature.Recv() != nil {
+			params = params[1:]
+		}
+		if len(params) != 2 || !types.Identical(params[0].Type(), params[1].Type()) {
+			continue
+		}
+		if b, ok := params[0].Type().Underlying().(*types.Basic); ok && b.Info()&(types.IsBoolean|types.IsNumeric) != 0 {
+			continue
+		}
+		s1 := symmetrySig(fn, params[0], params[1], "A", "B")
+		s2 := symmetrySig(fn, params[0], params[1], "B", "A")
+		sym := len(s1) == len(s2)
+		detail := ""
+		if sym {
+			for i := range s1 {
+				if s1[i] != s2[i] {
+					sym = false
+				}
+			}
+		}
+		if !sym {
+			in2 := map[string]int{}
+			for _, x := range s2 {
+				in2[x]++
+			}
+			for _, x := range s1 {
+				if in2[x] > 0 {
+					in2[x]--
+				} else {
+					detail += "\n   only one way round: " + x
+				}
+			}
+		}
+		out = append(out, symCand{fn, params[0], params[1], sym, detail})
+	}
+	return out
+}
+
+func ruleComparatorsSymmetric(p *Prog, r *Report, pkgs map[string]bool, floor int) {
+	r.rule("R-EQs", "Equality predicates treat their two operands alike: for every function in the planner packages with one bool result and exactly two parameters of one type (string, slice, pointer or struct), the tests, map stores and returned values described with the operands labelled A/B are the same multiset when the labels are swapped (symmetric operators in one spelling). A predicate that tests `every element of a is in b` without the converse reports a subset as equal. Orderings (less functions) and the directed pairing helpers are listed in tables/asym_audit.tsv with the reason.")
+	audited := map[string]string{}
+	for _, row := range readTable("asym_audit.tsv", 2) {
+		audited[row[0]] = row[1]
+	}
+	n := 0
+	for _, c := range comparatorCandidates(p, pkgs, nil) {
+		n++
+		name := fnDisplay(c.Fn)
+		if why, ok := audited[name]; ok {
+			r.add("R-EQs", "symmetric|"+name, p.pos(c.Fn.Pos()), name+" is a directed predicate by design: "+why, !c.Sym,
+				"listed as directed in tables/asym_audit.tsv but it treats both operands alike now: remove the row")
+			continue
+		}
+		r.add("R-EQs", "symmetric|"+name, p.pos(c.Fn.Pos()), name+" treats its two operands alike", c.Sym,
+			"the predicate is not symmetric in its operands: a device value and a target value that differ can be reported equal in one direction"+c.Detail)
+	}
+	r.floor("R-EQs", "two-operand predicates examined", n, floor)
+}
+
+func init() {
+	dumpers["symcands"] = func(p *Prog, m *Model) {
+		pk := map[string]bool{}
+		for _, s := range strings.Split(os.Getenv("PKG"), ",") {
+			pk[s] = true
+		}
+		for _, c := range comparatorCandidates(p, pk, nil) {
+			fmt.Printf("%s\t%v\t%s\n", fnDisplay(c.Fn), c.Sym, strings.ReplaceAll(c.Detail, "\n", " ;; "))
+		}
+	}
 }
